@@ -722,9 +722,9 @@ func TestC17(t *testing.T) {
 		"nested collections as variable values and variadic functions are executed for totality only (the statement does not define them)")
 	runProperty(t, r,
 		Stage[c17EvalCase]{Name: "option-orders", Enum: c17EnumEval, Run: c17RunEval},
-		Stage[c17EvalCase]{Name: "variables", Gen: c17GenEval, Run: c17RunEval, N: pick(6000, 150000)},
-		Stage[c17FnCase]{Name: "functions", Gen: c17GenFn, Run: c17RunFn, N: pick(6000, 150000)},
+		Stage[c17EvalCase]{Name: "variables", Gen: c17GenEval, Run: c17RunEval, N: pick(18000, 150000)},
+		Stage[c17FnCase]{Name: "functions", Gen: c17GenFn, Run: c17RunFn, N: pick(18000, 150000)},
 		Stage[c17UnkCase]{Name: "unknown-variable-contexts", Enum: c17EnumUnk, Run: c17RunUnk},
-		Stage[c17UnkCase]{Name: "unknown-variable-nested", Gen: c17GenUnk, Run: c17RunUnk, N: pick(3000, 60000)},
+		Stage[c17UnkCase]{Name: "unknown-variable-nested", Gen: c17GenUnk, Run: c17RunUnk, N: pick(9000, 60000)},
 	)
 }
